@@ -183,6 +183,65 @@ func lw(ws []write) string {
 	return "[" + strings.Join(b, ", ") + "]"
 }
 
+// orders prints, as facts, the order in which Committee.ProcessBlock commits the histories (walking
+// into the Committee methods it calls, in source order) and the order in which Committee.RollbackTo
+// rolls them back inside its per-height loop.
+func orders() {
+	methods := map[string]*ast.FuncDecl{}
+	files := map[*ast.FuncDecl]*ex.File{}
+	for _, f := range ex.ParseDir("cr/state") {
+		for _, d := range f.AST.Decls {
+			if fd, ok := d.(*ast.FuncDecl); ok && fd.Body != nil && ex.RecvName(fd) == "Committee" {
+				methods[fd.Name.Name] = fd
+				files[fd] = f
+			}
+		}
+	}
+	walk := func(start string, names map[string]bool) []string {
+		var res []string
+		visited := map[string]bool{}
+		var rec func(fd *ast.FuncDecl)
+		rec = func(fd *ast.FuncDecl) {
+			f := files[fd]
+			ast.Inspect(fd.Body, func(n ast.Node) bool {
+				c, ok := n.(*ast.CallExpr)
+				if !ok {
+					return true
+				}
+				sel, ok := c.Fun.(*ast.SelectorExpr)
+				if !ok {
+					return true
+				}
+				recv := f.Src(sel.X)
+				if names[sel.Sel.Name] && recv != "c" {
+					res = append(res, recv)
+					return true
+				}
+				if recv == "c" {
+					if m, ok := methods[sel.Sel.Name]; ok && !visited[sel.Sel.Name] {
+						visited[sel.Sel.Name] = true
+						rec(m)
+					}
+				}
+				return true
+			})
+		}
+		if fd, ok := methods[start]; ok {
+			visited[start] = true
+			rec(fd)
+		} else {
+			ex.Die("Committee.%s not found", start)
+		}
+		return res
+	}
+	co := walk("ProcessBlock", map[string]bool{"Commit": true})
+	ro := walk("RollbackTo", map[string]bool{"RollbackTo": true, "rollbackTo": true})
+	fmt.Printf("\n-- commit order in Committee.ProcessBlock: %s\n", strings.Join(co, ", "))
+	fmt.Printf("def commitOrder : List Txt := %s\n", ncs(co))
+	fmt.Printf("-- rollback order in Committee.RollbackTo: %s\n", strings.Join(ro, ", "))
+	fmt.Printf("def rollbackOrder : List Txt := %s\n", ncs(ro))
+}
+
 func main() {
 	ex.Header(prop, "ElaVerif.Model.Sites")
 	var sites []site
@@ -271,5 +330,6 @@ func main() {
 		nn = append(nn, fmt.Sprintf("n%d", i))
 	}
 	fmt.Printf("\ndef nsites : List NSite := [%s]\n", strings.Join(nn, ", "))
+	orders()
 	ex.Footer(prop)
 }
